@@ -131,6 +131,28 @@ CHECKS = {
              "used separately (result collected before wait) and user-defined tags are not exercised",
         technique="Lean 4 invariants over a specification automaton (refinement at API level) + deterministic simulation of the real runtime",
         design="§5 C11"),
+    "C12": dict(
+        text="Lean 4 theorems about the flat-byte model of DeserializerIOV::deserialize for an arbitrary message schema (body size, and per "
+             "variable-length field where its length is stored, whether it is claimed as a contiguous buffer or an iovec view, and its pass): "
+             "(1) for every byte string and every length values a sender may have written: if the message is accepted, the input minus its body "
+             "is exactly the first-pass fields, then the second-pass fields, then unclaimed slack, and every field of the result is one of those "
+             "pieces - nothing outside the input is part of a field; a claimed length larger than what is left, an input shorter than the body, "
+             "or a failing checksum reject the message; (2) lossless round trip: for every schema and field contents (any lengths incl. 0) the "
+             "wire `first-pass fields ++ second-pass fields ++ body` that stores those lengths (and verifies, for a checked message) "
+             "deserializes to exactly those fields in declaration order; (3) a sorted-map slice taken from the wire anchors to a contiguous "
+             "piece of the base buffer or to the empty string. Tied to the code by the real SerializerIOV/DeserializerIOV under ASan on four "
+             "message types covering every field kind: every serialized message re-fragmented 3 ways must round-trip (oracle), 4-6 hostile "
+             "variants each are deserialized, every byte of every accepted field read, every sorted-map entry anchored / value-deserialized / "
+             "looked up, and the result diffed with the compiled model (incl. a Lean CRC32C). Findings F5, F6 shown by the check and repaired",
+        note="trusted: Lean kernel + 3 standard axioms; fragmentation independence of the primitives is C14's theorem set (the model is at "
+             "flat-byte level); `a checked message whose bytes were altered is rejected` is stated as: rejected unless the CRC32C of the altered "
+             "bytes verifies (a 32-bit checksum cannot reject every alteration), exercised with bit flips; fixed_buffer<T> (length other than "
+             "sizeof(T) on the wire), user-defined hashers and messages above the IOVector element capacity are not exercised; UBSan's alignment "
+             "and pointer-overflow checks are off in this harness (packed array<T> elements; end() of a null array) - they are not memory accesses; "
+             "nested values of a sorted map are deserialized from private copies in the harness (deserialization rewrites pointer fields in place, "
+             "hostile slices may overlap)",
+        technique="Lean 4 proof over an executable model + differential correspondence under sanitizers on intact, re-fragmented and hostile inputs",
+        design="§5 C12"),
     "C14": dict(
         text="Lean 4 theorems, for every vector shape (any number of elements, zero-length elements anywhere), every byte count and "
              "every destination shape, that each modelled operation equals its effect on the flat address sequence: sum, shrink_to, "
